@@ -424,6 +424,10 @@ def run(ctx):
     # ---------------- R3 copy contract --------------------------------------
     copycontract.check(ctx, idx, ["Feature", "Annotation", "AnnotatedSequence"], "R3", immutable={
         ("AnnotatedSequence", "_seqstart"): "an integer", ("Feature", "_key"): "a string"})
+    # locations are kept in frozensets and features in sets: two that differ (in a defect, a strand, a qualifier) must not be equal, or
+    # one of them silently vanishes from its container
+    from ..lints import equality_covers_state
+    equality_covers_state(ctx, ANN, "R3.equality-covers-state", ("Location", "Feature", "Annotation", "AnnotatedSequence"))
     # Feature hands out copies of its mutable parts
     for prop in ("locs", "qual"):
         f = s.func(f"Feature.{prop}")
@@ -501,6 +505,8 @@ def _enum_members(clsnode):
 
 
 MUTANTS = [
+    Mutant("location-eq-ignores-defect", ANN, "            and self.strand == item.strand\n            and self.defect == item.defect\n", "            and self.strand == item.strand\n", "R3.equality-covers-state"),
+    Mutant("feature-eq-ignores-qualifiers", ANN, "            and self._locs == item._locs\n            and self._qual == item._qual\n", "            and self._locs == item._locs\n", "R3.equality-covers-state"),
     Mutant("complement-w-s-swapped", "sequence/seqtypes.py", '"W": "W",', '"W": "S",', "R2.complement-iupac"),
     Mutant("annotation-adopts-set", ANN, "        if features is None:\n            self._features = set()\n        else:\n",
            "        if features is None:\n            self._features = set()\n        elif isinstance(features, set):\n            self._features = features\n        else:\n",
